@@ -67,7 +67,10 @@ CLAIMS = {
         technique='Coq proof (parser round-trip by induction over lines) + differential correspondence',
         ref='DESIGN.md §5 C19'),
     'C02': dict(
-        text='Coq theorems c02_events (header + ANY thread map + ANY padding + ANY m complete records -> exactly m events in '
+        text='Coq theorems c02_code_dispatch / code_threadmap_entry / code_layouts (the magics of the dispatch, the byte layout of a '
+             'thread-map entry and the fixed header sizes, regenerated from kd_buf_parser.py on every run by tr_container.py, are the '
+             'model\'s; the five functions of the parser are compared with the exact texts the model was written from), '
+             'c02_events (header + ANY thread map + ANY padding + ANY m complete records -> exactly m events in '
              'order, each the decoding of its record, under the guard that the record stream does not begin with a zero byte), '
              'c02_tables/c02_no_residue (tables = thread map, later entry wins, for EVERY previous table content), and '
              'c02_leading_zero_refuted (the unguarded statement is false: finding F01, recorded in known_findings.txt); closed '
@@ -77,7 +80,9 @@ CLAIMS = {
              'library oracles) validated against the code each run; from_kd_buf is the generated model of C01',
         technique='Coq proof (encoder/parser round trip by induction) + differential correspondence', ref='DESIGN.md §5 C02'),
     'C06': dict(
-        text='Coq theorems c06_prefix_events (for EVERY byte string, v2 or v3 or garbage, EVERY cut offset and EVERY behaviour '
+        text='Coq theorems c06_code_print_with_count / code_cli_commands / code_cli_options (the counting loop, the option -> setting '
+             'assignments of every command and the option defaults, regenerated from __main__.py by tr_cli.py, are the model\'s pwc '
+             'and the tables the command-line correspondence is written for), c06_prefix_events (for EVERY byte string, v2 or v3 or garbage, EVERY cut offset and EVERY behaviour '
              'of the plist decoder the events of the cut dump are a prefix of those of the whole dump), c06_whole_records_only, '
              'c06_no_fuel_exhaustion (every loop consumes input: linear number of iterations), c06_pairing_incremental / '
              'filter / limit (the downstream pipeline never revises what it reported); closed under the global context. '
@@ -100,7 +105,8 @@ CLAIMS = {
              '(compared for sec < 2^31)', technique='Coq proof over generated tables + differential correspondence',
         ref='DESIGN.md §5 C16'),
     'C03': dict(
-        text='Coq theorems c03_seek_first (tag scan stops after the FIRST occurrence), c03_whole_dump (for EVERY chunking, '
+        text='Coq theorems c03_code_constants (stackshot marker, section tags and the seven block tags regenerated from '
+             'kd_buf_parser.py by tr_container.py are the model\'s), c03_seek_first (tag scan stops after the FIRST occurrence), c03_whole_dump (for EVERY chunking, '
              'thread map, filler/junk, block list: events = decodings of all records of all chunks in file order, thread map = '
              "the file's, blocks = the (tag, payload) pairs, normal end), c03_chunking_independent, c03_list_sections "
              '(kernel extensions / trace codes / log records concatenated in file order) and c03_single_sections; closed '
